@@ -225,17 +225,41 @@ def StageReference(dataReference,  # type: experiment.model.graph.DataReference
                 #Add / to dest to avoid commonprefix issue where /usr/var matches /usr/var2
                 #(due to charactwise matching performed)
                 target = os.path.join(os.path.realpath(dest), '')
-                for f in tar.getmembers():
+                members = tar.getmembers()
+
+                def location(path, ownLinks=()):
+                    # VV: Where @path ends up (like realpath, but the last segment is not followed); None if it
+                    #     goes through one of @ownLinks
+                    walked = os.path.sep
+                    parts = [p for p in path.split(os.path.sep) if p not in ('', '.')]
+                    for idx, part in enumerate(parts):
+                        if part == '..':
+                            walked = os.path.dirname(walked)
+                            continue
+                        walked = os.path.join(walked, part)
+                        if idx < len(parts) - 1:
+                            if walked in ownLinks:
+                                return None
+                            walked = os.path.realpath(walked)
+                    return walked
+
+                # VV: realpath() cannot follow the symbolic links that the archive itself is about to create, do not
+                #     extract (or link) anything *through* them
+                ownLinks = set(location(os.path.join(target, m.name)) for m in members if m.issym())
+
+                for f in members:
                     # VV: normalise the path of the member (it may contain `..` segments or be absolute)
                     newPath = os.path.join(os.path.realpath(os.path.join(dest, f.name)), '')
                     #if target includes / then commonprefix will include it
-                    if os.path.commonprefix([target, newPath]) != target:
+                    if os.path.commonprefix([target, newPath]) != target \
+                            or location(os.path.join(target, f.name), ownLinks) is None:
                         raise tarfile.ReadError('Archive contains files that would be extracted outside of destination')
                     if f.issym() or f.islnk():
                         # VV: symbolic links are relative to the link itself, hard links to the root of the archive
                         linkBase = os.path.dirname(newPath.rstrip(os.path.sep)) if f.issym() else dest
                         linkPath = os.path.join(os.path.realpath(os.path.join(linkBase, f.linkname)), '')
-                        if os.path.commonprefix([target, linkPath]) != target:
+                        if os.path.commonprefix([target, linkPath]) != target \
+                                or location(os.path.join(linkBase, f.linkname), ownLinks) is None:
                             raise tarfile.ReadError('Archive contains links that point outside of destination')
 
                 tar.extractall(dest)
